@@ -77,7 +77,10 @@ ROOT_SPELLINGS = ["int", "omitted", "id-element", "pid-element", "flatnonzero", 
                   "np.int8", "np.uint8", "np.int16", "np.uint16", "np.int32", "np.uint32", "np.int64", "np.uint64", "np.intp"]
 # ---- Tree.Node.traverse: the same node, its handle obtained in every way the API hands out nodes
 NODE_VIA = ["node(int)", "getitem(int)", "node(np.int32)", "getitem(np.int64)", "iter", "soma", "child-of-parent", "parent-of-child",
-            "tips", "seen-in-traversal"]
+            "tips", "seen-in-traversal",
+            # ... and the same node addressed FROM THE END / through a slice, as sequences are (`tree[-1]`, `tree[-k:]`, `reversed`)
+            "getitem(-k)", "getitem(np.int64(-k))", "getitem(np.int16(-k))", "slice[-k:]", "slice[k:k+1]", "slice[::-1]", "slice[:-k-1:-1]",
+            "handle-of-handle.idx"]
 _ABSENT = object()
 
 
@@ -213,6 +216,73 @@ def _styled(fn, style, miscalled, absent):
 
         return deco(deco(rec)) if style == "wraps-twice-varargs" else deco(rec)
     raise ValueError(style)
+
+
+# ---- "all enter/leave callbacks": what the callbacks RETURN is theirs - the traversal hands the very object on to the next call and
+# never looks into it. Values of every kind: arrays (== / != are elementwise, the truth value of the result is ambiguous), pandas
+# objects, containers (unhashable ones), falsy things, objects with an == / != / bool() / len() / hash of their own.
+VALUE_KINDS = ["int", "ndarray-n", "ndarray-empty", "ndarray-1", "ndarray-2d", "ndarray-bool", "ndarray-object", "np-float-0", "np-int",
+               "series", "dataframe", "list", "empty-list", "tuple-2", "tuple-3", "dict", "empty-dict", "set", "str", "bytearray-empty",
+               "float-nan", "eq-true", "eq-false", "eq-raises", "eq-array", "bool-raises", "falsy-object", "len0-object", "unhashable-object",
+               "exception", "function", "generator", "class"]
+
+
+def _box(kind, v):
+    """a fresh object of kind `kind` (what it carries is looked up by identity, never by comparing it)"""
+    if kind.startswith("ndarray-"):
+        return {"n": lambda: np.array([v, v + 1, v + 2]), "empty": lambda: np.empty(0), "1": lambda: np.array([v]),
+                "2d": lambda: np.full((2, 3), float(v)), "bool": lambda: np.array([True, False, v % 2 == 0]),
+                "object": lambda: np.array([None, "a", v], dtype=object)}[kind[8:]]()
+    if kind in ("series", "dataframe"):
+        import pandas as pd
+        return pd.Series([v, v + 1]) if kind == "series" else pd.DataFrame({"a": [v, v + 1], "b": [0.5, 1.5]})
+    simple = {"int": lambda: v, "np-float-0": lambda: np.float64(0.0), "np-int": lambda: np.int64(v), "list": lambda: [v, [v]],
+              "empty-list": list, "tuple-2": lambda: (str(v), v), "tuple-3": lambda: (v, "x", None), "dict": lambda: {"v": v},
+              "empty-dict": dict, "set": lambda: {v}, "str": lambda: "v%d" % v, "bytearray-empty": bytearray,
+              "float-nan": lambda: float("nan"), "exception": lambda: ValueError(v), "function": lambda: (lambda: v),
+              "generator": lambda: (x for x in [v]), "class": lambda: type("T%d" % v, (), {})}
+    if kind in simple:
+        return simple[kind]()
+
+    def refuse(*_a):
+        raise TypeError(f"a value of kind '{kind}' was asked what only its owner may ask")
+
+    ns = {"eq-true": {"__eq__": lambda s, o: True, "__ne__": lambda s, o: False, "__hash__": lambda s: 0},
+          "eq-false": {"__eq__": lambda s, o: False, "__ne__": lambda s, o: True, "__hash__": lambda s: 0},
+          "eq-raises": {"__eq__": refuse, "__ne__": refuse, "__hash__": lambda s: 0},
+          "eq-array": {"__eq__": lambda s, o: np.array([True, False]), "__ne__": lambda s, o: np.array([False, True]), "__hash__": lambda s: 0},
+          "bool-raises": {"__bool__": refuse}, "falsy-object": {"__bool__": lambda s: False}, "len0-object": {"__len__": lambda s: 0},
+          "unhashable-object": {"__hash__": None, "__eq__": lambda s, o: s is o}}[kind]
+    return type("Value_" + kind.replace("-", "_"), (), dict(ns, __repr__=lambda s: f"<value of kind '{kind}'>"))()
+
+
+def _boxed(enter, leave, ekind, lkind, foreign):
+    """the callbacks `enter` / `leave` (which compute with numbers), returning and receiving objects of kinds `ekind` / `lkind` instead
+    ('mixed': the kind changes from node to node). `foreign` collects what was received that no call had returned."""
+    reg = {}
+
+    def put(kind, v, i):
+        o = _box(VALUE_KINDS[(5 * i + v) % len(VALUE_KINDS)] if kind == "mixed" else kind, v)
+        reg.setdefault(id(o), (o, v))             # (ints: the same number is the same value)
+        return o
+
+    def get(o, who):
+        hit = reg.get(id(o))
+        if hit is None or hit[0] is not o:
+            foreign.append([who, f"<{type(o).__name__}> {repr(o)[:80]}"])
+            return -1
+        return hit[1]
+
+    def e(i, pv):
+        return put(ekind, enter(i, None if pv is None else get(pv, f"enter({_nid(i)})")), _nid(i))
+
+    def l(i, ks):
+        vals = [get(k, f"leave({_nid(i)})") for k in ks]
+        out = leave(i, vals)
+        ks.clear()                                 # the list belongs to the callback
+        return put(lkind, out, _nid(i))
+
+    return e, l, get
 
 
 def _ref(kids, root):
@@ -454,6 +524,26 @@ def _families(rng, quick):
             a, b = rng.choice(TRUTH_STYLES), rng.choice(TRUTH_STYLES)
             api = rng.choice(["swc_utils", "swc_utils", "tree", "node"])
             out.append(case(f"truth/pair/{api}", pids, rng.randrange(len(pids)), api, esig=a, lsig=b))
+    # (5) what the callbacks RETURN: every kind of value as the leave value and as the enter value (the other side plain numbers),
+    # all three entry points in turn, start nodes with a subtree of their own where there is one; then kinds mixed within one tree
+    apis, j = ("swc_utils", "tree", "node"), rng.randrange(3)
+
+    def inner_root(pids):
+        inner = sorted({p for p in pids if p >= 0})
+        return rng.choice(inner) if rng.random() < 0.8 else rng.randrange(len(pids))
+
+    for _ in range(1 if quick else 3):
+        for vk in VALUE_KINDS[1:]:
+            for side in ("lvals", "evals"):
+                pids = _small_tree(rng, 3)
+                api = apis[j % 3]; j += 1
+                given = "both" if rng.random() < 0.6 else ("leave" if side == "lvals" else "enter")
+                out.append(case(f"values/{vk}-from-{side[0] == 'l' and 'leave' or 'enter'}/{api}", pids, inner_root(pids), api,
+                                given=given, **{side: vk}))
+        for _ in range(6):
+            pids = _small_tree(rng, 3)
+            api = apis[j % 3]; j += 1
+            out.append(case(f"values/mixed/{api}", pids, inner_root(pids), api, evals=rng.choice(["mixed", "int"]), lvals="mixed"))
     return out
 
 
@@ -500,6 +590,23 @@ def _node_via(t, via, case):
         return t.node(case["child"]).parent()
     if via == "tips":
         return next(c for c in t.get_tips() if int(c.id) == root)
+    n = case["n"]
+    if via == "getitem(-k)":
+        return t[root - n]
+    if via == "getitem(np.int64(-k))":
+        return t[np.int64(root - n)]
+    if via == "getitem(np.int16(-k))":
+        return t[np.int16(root - n)]
+    if via == "slice[-k:]":
+        return t[root - n:][0]
+    if via == "slice[k:k+1]":
+        return t[root:root + 1][0]
+    if via == "slice[::-1]":
+        return t[::-1][n - 1 - root]
+    if via == "slice[:-k-1:-1]":
+        return t[:root - n - 1:-1][-1]
+    if via == "handle-of-handle.idx":                 # the index a handle reports, used to ask for the node again (either spelling)
+        return t[t[root - n].idx] if root % 2 else t.node(t[root - n].idx)
     if via == "seen-in-traversal":
         seen = {}
         t.traverse(enter=lambda nd, pv: seen.setdefault(int(nd.id), nd))
@@ -595,6 +702,9 @@ class Trav(Suite):
         p = np.array(pids, dtype=np.int32)
         log = []
         enter, leave = _callbacks(log)
+        foreign, unbox = [], None
+        if "evals" in case or "lvals" in case:
+            enter, leave, unbox = _boxed(enter, leave, case.get("evals", "int"), case.get("lvals", "int"), foreign)
         miscalled = {"E": [], "L": []}
         as_enter = lambda f: _styled(f, case.get("esig", "named"), miscalled["E"], lambda: None)
         as_leave = lambda f: _styled(f, case.get("lsig", "named"), miscalled["L"], list)
@@ -630,7 +740,7 @@ class Trav(Suite):
             e2 = lambda nd, pv: enter(nd.id, pv)
             l2 = lambda nd, ks: leave(nd.id, ks)
             nodeobs = {"P": {}, "C": {}}
-            if case.get("nodevals", (n + root) % 2 == 0):
+            if case.get("nodevals", (n + root) % 2 == 0 and unbox is None):
                 # callbacks whose VALUES carry the node object itself (as the library's own callbacks do: CutShortTipBranch keeps
                 # `(dis, n)`, ToImageStack returns `n`): what a later call receives must still be the node the earlier call saw
                 def e2(nd, pv):
@@ -651,7 +761,9 @@ class Trav(Suite):
                 ret = t.traverse(**kw)
             else:
                 ret = _node_via(t, case.get("via", "node(int)"), case).traverse(**kw)
-        if isinstance(ret, tuple) and len(ret) == 2:
+        if unbox is not None and ret is not None:
+            ret = unbox(ret, "the caller")
+        elif isinstance(ret, tuple) and len(ret) == 2:
             ret = ret[1]
         try:
             ret = None if ret is None else int(ret)
@@ -660,6 +772,8 @@ class Trav(Suite):
         res = {"log": log, "ret": ret}
         if miscalled["E"] or miscalled["L"]:
             res["miscalled"] = miscalled
+        if foreign:
+            res["foreign"] = foreign
         if api != "swc_utils":
             res["nodeobs"] = nodeobs
         return res
@@ -695,6 +809,8 @@ class Trav(Suite):
         given = case.get("given", "both")
         how = (f"start node {root} given as {case.get('rootas', 'int') if case['api'] != 'node' else 'handle via ' + case.get('via', 'node(int)')}"
                f" to {case['api']}, callbacks given: {given} (enter: '{case.get('esig', 'named')}', leave: '{case.get('lsig', 'named')}')")
+        if "evals" in case or "lvals" in case:
+            how += f"; the callbacks return values of kind '{case.get('evals', 'int')}' (enter) / '{case.get('lvals', 'int')}' (leave)"
         if not isinstance(res, dict):
             return [("malformed-result", f"no result: {str(res)[:200]}")]
         if "exc" in res:
@@ -719,6 +835,10 @@ class Trav(Suite):
             out.append(("leave-values", f"leave({i}), a callable of kind '{case.get('lsig')}', was called with {k} positional argument(s)"
                                         f"{' and keywords ' + str(kw) if kw else ''} instead of (node, values returned by its children's calls)"
                                         f" [{len(mis['L'])} such calls]"))
+        # the values ARE the objects the calls returned (identity), whatever they are
+        for who, what in (res.get("foreign") or [])[:1]:
+            out.append(("return-value" if who == "the caller" else "enter-value" if who.startswith("enter") else "leave-values",
+                        f"{who} received {what}, an object that no callback call had returned [{how}]"))
         if case.get("big") and len(log) != 2 * len(facts):
             out.append(("call-count", f"{len(log)} callback calls on a subtree of {len(facts)} nodes (tree of {n})"))
 
